@@ -22,9 +22,12 @@ pub enum Status {
     NotUtf8Late,
     /// exports a name it neither defines nor imports
     ExportsMissing,
+    /// the path of the library file exists but is a directory: it cannot be read
+    IsDirectory,
 }
 
-pub const FILE_STATUSES: [Status; 10] = [
+pub const FILE_STATUSES: [Status; 11] = [
+    Status::IsDirectory,
     Status::ExportsMissing,
     Status::Healthy,
     Status::Missing,
@@ -90,7 +93,13 @@ fn body_text(g: &Graph, i: usize) -> String {
 fn lib_text(g: &Graph, i: usize, name_override: Option<&str>) -> String {
     if g.multi_decl {
         // one import declaration per dependency (a library may have several import declarations)
-        let decls: String = g.edges[i].iter().map(|j| format!(" (import {})", import_set(g, *j))).collect();
+        // ... the last of them after a first part of the body
+        let last = g.edges[i].len().saturating_sub(1);
+        let decls: String = g.edges[i]
+            .iter()
+            .enumerate()
+            .map(|(k, j)| if k == last { format!(" (begin (define early{} {})) (import {})", i, i, import_set(g, *j)) } else { format!(" (import {})", import_set(g, *j)) })
+            .collect();
         let name = name_override.map(|s| s.to_string()).unwrap_or(format!("(g n{})", i));
         let body = body_text(g, i);
         return format!("(define-library {}{} (export v{}{}) (begin {}))\n", name, decls, i, extra_export(g, i), body);
@@ -104,7 +113,7 @@ fn lib_text(g: &Graph, i: usize, name_override: Option<&str>) -> String {
 
 fn file_bytes(g: &Graph, i: usize) -> Option<Vec<u8>> {
     match g.status[i] {
-        Status::Missing => None,
+        Status::Missing | Status::IsDirectory => None,
         Status::Healthy | Status::BodyFault | Status::UsesUnimported | Status::ExportsMissing => Some(lib_text(g, i, None).into_bytes()),
         Status::SecondInFile => Some(format!("(define-library (g decoy{}) (export d) (begin (define d 0)))\n{}", i, lib_text(g, i, None)).into_bytes()),
         Status::WrongName => Some(lib_text(g, i, Some("(g other)")).into_bytes()),
@@ -164,7 +173,7 @@ pub fn acceptable(g: &Graph, root: usize) -> Vec<&'static str> {
                 Status::Missing | Status::WrongName => "Logic::LibraryNotFound",
                 Status::BodyFault | Status::UsesUnimported | Status::ExportsMissing => "Logic::UnboundedSymbol",
                 Status::Unbalanced => "Syntax",
-                Status::NotUtf8 | Status::NotUtf8Late => "IO",
+                Status::NotUtf8 | Status::NotUtf8Late | Status::IsDirectory => "IO",
             };
             if !out.contains(&c) {
                 out.push(c);
@@ -210,11 +219,19 @@ fn make_dir(g: &Graph) -> PathBuf {
     let _ = std::fs::remove_dir_all(&d);
     std::fs::create_dir_all(d.join("g")).unwrap();
     for i in 0..g.n {
-        if let Some(b) = file_bytes(g, i) {
-            std::fs::write(d.join("g").join(format!("n{}.sld", i)), b).unwrap();
-        }
+        write_lib(&d, g, i);
     }
     d
+}
+
+/// put library i of the graph where the interpreter looks for it (nothing for a missing one, a directory for IsDirectory)
+fn write_lib(d: &std::path::Path, g: &Graph, i: usize) {
+    let path = d.join("g").join(format!("n{}.sld", i));
+    if g.status[i] == Status::IsDirectory {
+        std::fs::create_dir_all(&path).unwrap();
+    } else if let Some(b) = file_bytes(g, i) {
+        std::fs::write(path, b).unwrap();
+    }
 }
 
 fn lib_name(i: usize) -> LibraryName {
@@ -618,9 +635,7 @@ fn changed_file_check(ctx: &Ctx) {
                 let c1 = attempt(&mut s);
                 let file = d.join("g").join("n0.sld");
                 let _ = std::fs::remove_file(&file);
-                if let Some(b) = file_bytes(&g2c, 0) {
-                    std::fs::write(&file, b).unwrap();
-                }
+                write_lib(&d, &g2c, 0);
                 let c2 = attempt(&mut s);
                 let mut fresh = Session::bare().unwrap();
                 fresh.it.program_directory = Some(d.clone());
@@ -651,9 +666,9 @@ pub fn run(ctx: &Ctx) {
     ctx.set_rule(
         "every directed graph (self-loops allowed) on 1-2 libraries (thorough: 3, strided) x every assignment of node \
          status (files: healthy / missing / body faults at load / file defines another name / unbalanced / not UTF-8 / \
-         body uses the export of a library it does not import / exports a name it does not have / a healthy definition that is the second one in its file / non-UTF-8 bytes on a later line; registered sources: healthy / missing / body fault / uses \
+         body uses the export of a library it does not import / exports a name it does not have / the file's path is a directory / a healthy definition that is the second one in its file / non-UTF-8 bytes on a later line; registered sources: healthy / missing / body fault / uses \
          unimported) x every history of 1-3 import attempts on one interpreter. \
-         Edges (and the program's own import) are written as plain, prefix, only or rename import sets. \
+         Edges (and the program's own import) are written as plain, prefix, only or rename import sets, in one import declaration or in one declaration per edge, the last of them after a first (begin ...) of the library body. \
          Oracle computed from the graph alone: success iff everything reachable is healthy and no cycle is reachable, a \
          cyclic-import error only if a cycle is reachable, a fault's own error class only if that faulty library is \
          reachable; every attempt equals the same import on a fresh interpreter; every attempt terminates (step and depth budget of the import hook: 100 000 evaluation steps, 64 nested imports); \
